@@ -58,7 +58,39 @@ var (
 	theProbe   *probeProc
 	knownHangs = map[string]bool{} // hang keys confirmed in this worker
 	probeSpawn int
+	// A defect that a large share of all inputs reaches (a slice parser that never ends when the data runs out) would cost one
+	// probe restart per call even as a presumed repeat. After suspendAfter presumed repeats of a confirmed hang key through the
+	// same operation, that operation is suspended for the rest of the run (in every worker: shared through the known-hangs
+	// file): not called any more, counted, named in a coverage note. The hang itself is reported; what else is wrong with the
+	// operation shows after it is fixed.
+	suspendedOps  = map[string]bool{}
+	presumedByOp  = map[string]int{}
+	toolHangs     = map[string]int{}  // tool -> reported hang verdicts (this run)
+	toolPresumed  = map[string]int{}  // tool -> runs killed at the short timeout after a reported hang
+	toolSuspended = map[string]bool{} // tool -> not run any more
 )
+
+const (
+	suspendAfter     = 3
+	toolSuspendAfter = 8
+	// suspendAfterTrips: the same for measured (not presumed) trips - allocation bound crossed, probe killed - of one key
+	// through one operation: each costs a probe restart, a fatal one up to seconds
+	suspendAfterTrips = 50
+)
+
+// countTrip counts one trip of key through op and suspends op at the limit.
+func countTrip(c *runner.Ctx, op, key string, limit int) {
+	if c.Idx < 0 || op == "" {
+		return
+	}
+	k := op + " behind " + key
+	presumedByOp[k]++
+	if presumedByOp[k] >= limit && !suspendedOps[op] {
+		suspendedOps[op] = true
+		shareKnown("suspend\t" + op)
+		c.Seen("operation_suspended_behind_confirmed_hang_key", k)
+	}
+}
 
 func startProbe(env *runner.Env) (*probeProc, error) {
 	return startProbeIn(env.Scratch, "probe.status", env.RepoDir, env.Tier, false)
@@ -184,6 +216,15 @@ func drive(c *runner.Ctx, j *job) {
 		for k := range knownHangs {
 			req.Known = append(req.Known, k)
 		}
+		req.Suspended = req.Suspended[:0]
+		for k := range suspendedOps {
+			req.Suspended = append(req.Suspended, k)
+		}
+		if c.Idx < 0 {
+			// replay of a saved witness: nothing is presumed or suspended (the setup of this process may just have
+			// confirmed the very hang key the witness is about)
+			req.Known, req.Suspended = nil, nil
+		}
 		resp, died, err := theProbe.roundTrip(req)
 		if err != nil {
 			c.Inconclusive("probe protocol error")
@@ -243,9 +284,11 @@ func drive(c *runner.Ctx, j *job) {
 		case t.Class == "alloc":
 			c.Violation("es/"+t.Frame+"/alloc", fmt.Sprintf("%s had allocated %d bytes for %d input bytes when it was stopped (bound %d = 8 MiB + 1024*len), inside %s (case %s)",
 				t.Op, t.Alloc, t.Len, t.Bound, t.Frame, it.Desc), w)
+			countTrip(c, t.Op, "es/"+t.Frame+"/alloc", suspendAfterTrips)
 		case t.Class == "cpu-presumed":
 			c.Count("presumed_repeats_of_confirmed_hang_keys(aborted at 30 ms CPU, not reported)", 1)
 			c.Seen("presumed_repeat_of", "es/"+t.Frame+"/cpu")
+			countTrip(c, t.Op, "es/"+t.Frame+"/cpu", suspendAfter)
 		case t.Class == "cpu":
 			// first exceedance: reproduce in a fresh probe before calling it a violation
 			key := "es/" + t.Frame + "/cpu"
@@ -269,6 +312,7 @@ func drive(c *runner.Ctx, j *job) {
 		case strings.HasPrefix(t.Class, "fatal:"):
 			cl := strings.TrimPrefix(t.Class, "fatal:")
 			c.Violation("es/"+t.Frame+"/"+cl, fmt.Sprintf("%s killed the process (%s) at %s: %s (case %s)", t.Op, cl, t.Frame, head(firstLine(t.Stack), 200), it.Desc), w)
+			countTrip(c, t.Op, "es/"+t.Frame+"/"+cl, suspendAfterTrips)
 		}
 		if t.Seq <= 0 || attempt+1 >= maxTripsPerCase {
 			c.Count("cases_abandoned_after_repeated_trips", 1)
@@ -347,8 +391,17 @@ func loadSharedKnown() {
 		return
 	}
 	for _, l := range strings.Split(string(b), "\n") {
-		if strings.HasPrefix(l, "es/") {
+		switch {
+		case strings.HasPrefix(l, "es/"):
 			knownHangs[l] = true
+		case strings.HasPrefix(l, "suspend\t"):
+			suspendedOps[strings.TrimPrefix(l, "suspend\t")] = true
+		case strings.HasPrefix(l, "toolhang\t"):
+			if n := strings.TrimPrefix(l, "toolhang\t"); toolHangs[n] == 0 {
+				toolHangs[n] = 1
+			}
+		case strings.HasPrefix(l, "toolsuspend\t"):
+			toolSuspended[strings.TrimPrefix(l, "toolsuspend\t")] = true
 		}
 	}
 }
